@@ -27,6 +27,28 @@ CLAIMS = {
                 note=TB_PURE),
 }
 
+TB_PT = ("Trusted: TLC 1.8 + CommunityModules; PageTables.tla as the statement of the intended behaviour (written from the trait "
+         "documentation and the property text) and its entry bit layout; the harness's simulated physical memory (memfd arena, "
+         "snapshot/diff, SIGSEGV recovery) and raw logging. Histories are explored exhaustively only inside the small universes of "
+         "MC_PT_*.cfg (design level); conformance of the real crate is established on seeded random histories over the large universe "
+         "(testing, not proof). RecursivePageTable is not yet driven (needs the software MMU); upper-half physical-memory offsets "
+         "cannot be dereferenced in a user process.")
+
+CLAIMS.update({
+    "C01": dict(ref="§5 C01", tech="TLA+ state machine of the page-table hierarchy + hardware walk (PageTables.tla) model-checked exhaustively with TLC over small universes (invariant WalkIsHistory, ParentRights); TLC trace validation (Trace_PT.tla) of recorded call histories of the real MappedPageTable/OffsetPageTable with raw-memory comparison after every call",
+                text="TLC explores every reachable hierarchy of the MC_PT universe and every call from each (3 sizes nested, all allocator failure schedules, unmap, update_flags, set_flags_p4-p2, clean-up of every range) and checks that an independent hardware-style walk equals what the history of successful calls dictates; the real mappers are driven on seeded random histories over all 512 indices / both halves / frames up to 2^52, and TLC validates each call: result, raw changed table slots = specification's next state, and translate/translate_addr/translate_page of probe addresses = hardware walk of the specification's table memory = history.",
+                note=TB_PT),
+    "C02": dict(ref="§5 C02", tech="TLA+ action properties ErrorIsNoOp / NoPhantomSuccess on PageTables.tla checked by TLC for every transition of the small universe (all allocator failure schedules); TLC trace validation of error-heavy histories of the real mappers (error kind + raw memory unchanged)",
+                text="For every reachable state x every operation x every failure schedule of the MC_PT universe TLC checks that an error changes no translation and that unmap/update/translate_page succeed only for a mapping the history holds; on the real crate an error-heavy mix (allocator failing at the 1st/2nd/3rd request of half of the maps) is recorded and each call must return exactly the documented error kind (any error where the documentation is silent), identically for both mapper kinds, with raw table memory unchanged except allowed parent-flag widening and freshly linked zeroed tables. Found and fixed F4, F6, F7 (MappedPageTable).",
+                note=TB_PT),
+    "C09": dict(ref="§5 C09", tech="TLA+ spec: allocation bounds / tree shape invariants checked by TLC; TLC trace validation of allocator conversation, touched-frame set, whole-arena diff and complete contents of new tables over junk-filled simulated physical memory",
+                text="TLC checks AllocBound (<= 1/2/3 requests, only map allocates, only clean-up releases) and TreeShape on every transition/state of the small universe; on the real crate physical memory is pre-filled with non-zero junk, the allocator hands out fresh/recycled/huge-aligned frames in random order, and TLC validates per call: requested frames = missing tables, every pointer the mapper asked for (exact for MappedPageTable) or faulted on (OffsetPageTable, SIGSEGV) is a table of the hierarchy or just allocated, no other 8-byte slot of the arena changed, all non-zero slots of a new table were written by this call.",
+                note=TB_PT + " Reads of non-table memory are detected exactly for MappedPageTable (every frame_to_pointer request is logged) and by page fault for OffsetPageTable when the frame has no backing store (data frames never have)."),
+    "C10": dict(ref="§5 C10", tech="TLA+ spec: clean-up as a non-deterministic action bounded by InsideEmpty <= D <= OverlapEmpty, checked by TLC on every reachable hierarchy x every range of the small universe; TLC trace validation of clean_up / clean_up_addr_range of the real mappers (deallocation log, unlink-before-free, raw memory, idempotence)",
+                text="TLC explores clean-up from every reachable hierarchy (incl. residues of failed maps and unmaps) with every range of the universe and every admissible freed set, checking translations unchanged and tree shape; on the real crate a clean-up-heavy mix with ranges of every class (empty, single page, one table per level, unaligned, spanning the gap, ending at the last page, whole space; repeated immediately half of the time) is recorded and TLC validates the freed set against the bounds evaluated on the specification's pre-state, each frame once, unlinked before release (checked at the instant of deallocate_frame), untouched tables outside the range, second call frees nothing.",
+                note=TB_PT),
+})
+
 NA_DEFAULT = "check under construction in this session (planned in DESIGN.md section 5); not yet claimed"
 
 m = {
